@@ -292,6 +292,10 @@ type jsonComparingMatcher[T comparable] struct {
 }
 
 func (m *jsonComparingMatcher[T]) Match(value client.NormalValue) (bool, error) {
+	if value.IsNil() {
+		// the entry of a document whose JSON field is null: it holds no JSON value to compare
+		return false, nil
+	}
 	if jsonVal, ok := value.JSON(); ok {
 		if val, ok := m.getValueFunc(jsonVal); ok {
 			return m.evalFunc(val, m.value), nil
@@ -308,6 +312,10 @@ type jsonTypeMatcher[T comparable] struct {
 }
 
 func (m *jsonTypeMatcher[T]) Match(value client.NormalValue) (bool, error) {
+	if value.IsNil() {
+		// the entry of a document whose JSON field is null: it holds no JSON value to compare
+		return false, nil
+	}
 	if jsonVal, ok := value.JSON(); ok {
 		_, ok := m.getValueFunc(jsonVal)
 		return ok == m.shouldMatch, nil
@@ -321,6 +329,10 @@ type jsonBoolMatcher struct {
 }
 
 func (m *jsonBoolMatcher) Match(value client.NormalValue) (bool, error) {
+	if value.IsNil() {
+		// the entry of a document whose JSON field is null: it holds no JSON value to compare
+		return false, nil
+	}
 	if jsonVal, ok := value.JSON(); ok {
 		boolVal, ok := jsonVal.Bool()
 		if ok {
@@ -336,6 +348,10 @@ type jsonNullMatcher struct {
 }
 
 func (m *jsonNullMatcher) Match(value client.NormalValue) (bool, error) {
+	if value.IsNil() {
+		// the entry of a document whose JSON field is null: it holds no JSON value to compare
+		return false, nil
+	}
 	if jsonVal, ok := value.JSON(); ok {
 		return jsonVal.IsNull() == m.matchNull, nil
 	}
